@@ -60,6 +60,7 @@ fn case(rng: &mut Rng, idx: u64, rec: &mut Rec) {
         head,
         body: if bare_final { BodyPlan::Bare } else { body },
         close_data,
+        extra_interim: 0,
     };
     // length of the status line (through CRLF) of the first head on the wire
     let status_line_len = if first_is_100 {
@@ -78,6 +79,10 @@ fn case(rng: &mut Rng, idx: u64, rec: &mut Rec) {
         (false, Branch::Decide) => Handshake::Refused,
         (false, Branch::GiveUpAt(_)) => Handshake::GiveUp(1),
     };
+    if matches!(ex.handshake, Handshake::Late100(_)) && rng.chance(1, 3) {
+        // the server repeats its 100: only one of them is the late one that gets skipped
+        ex.extra_interim = 1;
+    }
     let (stream, mut truth) = match ex.render() {
         Some(v) => v,
         None => return,
@@ -163,6 +168,16 @@ fn case(rng: &mut Rng, idx: u64, rec: &mut Rec) {
             format!("handshake {:?}: expected Await100 -> {}, flow went {:?}", ex.handshake, want_after, d.path),
         );
     }
+    if ex.extra_interim > 0 {
+        rec.cov("late-100-twice");
+        let handed_out = d.response_log.iter().filter(|(_, _, r)| *r == Some(100)).count();
+        if d.late_skips != 1 || handed_out != ex.extra_interim {
+            return rec.fail(
+                "C11/late-100-not-skipped-once",
+                format!("two 100 responses arrived after the body: {} were skipped silently and {} handed out (exactly one must be skipped): {:?}", d.late_skips, handed_out, d.response_log),
+            );
+        }
+    }
     if matches!(ex.handshake, Handshake::Late100(_)) {
         if d.late_skips != 1 {
             return rec.fail("C11/late-100-not-skipped-once", format!("the late 100 was skipped {} times: {:?}", d.late_skips, d.response_log));
@@ -211,6 +226,7 @@ impl Property for P {
             }
         }
         v.push(("look/final-with-fields/inside-rest-of-head".into(), 10));
+        v.push(("late-100-twice".into(), 50));
         for b in ["branch/Got100/SendBody", "branch/Late100/SendBody", "branch/GiveUp/SendBody", "branch/Refused/RecvResponse"] {
             v.push((b.to_string(), 100));
         }
